@@ -42,6 +42,11 @@ PausedReceiver == ResumeLate /\ PauseFirst
 \* the listener is closed (accept reports net.ErrClosed, StreamServe cancels the handlers' context) while a connection that
 \* has not authenticated is being read / absorbed
 CloseWhileAbsorbing == (lst' = "closed" /\ lst = "open") => \E c \in Conns : st[c].pc \in {"read50", "absorb"}
+\* a write of the relay fails part-way: the receiver stops reading, the sender keeps sending, then the receiver resets
+ResetWhilePaused == \A c \in Conns : /\ (st'[c].trst /\ ~st[c].trst) => (st[c].tpz > 0 /\ ONData(ob[c]) > 0)
+                                     /\ (st'[c].crst /\ ~st[c].crst) => (st[c].cpz > 0 /\ ob[c].tsent > 0)
+                                     /\ (st[c].tpz > 0 => st'[c].tpz > 0) /\ (st[c].cpz > 0 => st'[c].cpz > 0)
+WriteFails == ResetWhilePaused /\ PauseFirst
 \* the target speaks only after the handshake deadline of the connection has long passed (the relay outlives it)
 TargetSendsLate == \A c \in Conns : ob'[c].tsent > ob[c].tsent => now > ob[c].acceptAt + Timeout
 \* and the client does not end the connection before the target has spoken
